@@ -63,6 +63,17 @@ func (b Bonder) Bond(ctx context.Context, mutable state.Mutable, tx *chain.Trans
 		maxBalance = binary.BigEndian.Uint64(maxBalanceBytes)
 	}
 
+	// Bonding is idempotent per transaction: a transaction that is already
+	// bonded is not charged again, since Unbond releases its fee only once.
+	txID := tx.GetID()
+	alreadyBonded, err := b.db.Has(txID[:])
+	if err != nil {
+		return false, fmt.Errorf("failed to check tx fee: %w", err)
+	}
+	if alreadyBonded {
+		return true, nil
+	}
+
 	fee, err := safemath.Mul(uint64(tx.Size()), feeRate)
 	if err != nil {
 		return false, nil //nolint:nilerr
@@ -82,7 +93,6 @@ func (b Bonder) Bond(ctx context.Context, mutable state.Mutable, tx *chain.Trans
 		return false, err
 	}
 
-	txID := tx.GetID()
 	if err := batch.Put(txID[:], binary.BigEndian.AppendUint64(nil, fee)); err != nil {
 		return false, fmt.Errorf("failed to write tx fee: %w", err)
 	}
